@@ -114,75 +114,89 @@ Definition famz (a : nat) : nat := match fam_of addrs a with Some f => f | None 
 
 Definition inflight (st dn : list nat) : list nat := filter (fun a => negb (mem a dn)) st.
 
-(* [e = None] is the start() step *)
+(* [e = None] is the start() step.  The pieces of the checker: *)
+Definition k_newly (c : cst) (N : snapshot) : list nat := skipn (length (sstarted (cprev c))) (sstarted N).
+Definition k_infl_prev (c : cst) : list nat := inflight (sstarted (cprev c)) (cdone c).
+(* the event is the completion of an attempt that is in flight *)
+Definition k_eff (c : cst) (e : option event) : bool :=
+  match e with Some (EDone a _) => mem a (k_infl_prev c) | _ => false end.
+Definition k_dn (c : cst) (e : option event) (N : snapshot) : list nat :=
+  cdone c ++ (match e with Some (EDone a _) => if k_eff c e then [a] else [] | _ => [] end)
+          ++ filter is_sync (k_newly c N).
+Definition k_oks (c : cst) (e : option event) (N : snapshot) : list nat :=
+  cok c ++ (match e with Some (EDone a true) => if k_eff c e then [a] else [] | _ => [] end)
+        ++ filter is_sync_ok (k_newly c N).
+Definition k_infl_next (c : cst) (e : option event) (N : snapshot) : list nat :=
+  inflight (sstarted N) (k_dn c e N).
+Definition k_expected (c : cst) (e : option event) (N : snapshot) : option nat :=
+  match (match e with Some (EDone a true) => if k_eff c e then Some a else None | _ => None end) with
+  | Some a => Some a
+  | None => hd_error (filter is_sync_ok (k_newly c N))
+  end.
+
+(* the log of attempts only grows; every attempt is a distinct, existing address *)
+Definition ck_log (c : cst) (N : snapshot) : bool :=
+  list_eqb Nat.eqb (firstn (length (sstarted (cprev c))) (sstarted N)) (sstarted (cprev c))
+  && nodupb (sstarted N) && forallb (fun a => a <? n)%nat (sstarted N)
+  && (length (scloses N) =? n)%nat.
+(* resolved at most once, never changes, and nothing starts afterwards *)
+Definition ck_once (c : cst) (N : snapshot) : bool :=
+  if pending (sfut (cprev c)) then true
+  else fstate_eqb (sfut N) (sfut (cprev c)) && match k_newly c N with [] => true | _ => false end.
+(* who wins: exactly the first success that arrives while pending *)
+Definition ck_win (c : cst) (e : option event) (N : snapshot) : bool :=
+  if pending (sfut (cprev c)) then
+    match k_expected c e N with
+    | Some w => fstate_eqb (sfut N) (FOk w)
+    | None => match sfut N with FOk _ => false | _ => true end
+    end
+  else true.
+(* errors: timeout only from the connect timer; failure only when every address
+   has been tried and has completed *)
+Definition ck_err (c : cst) (e : option event) (N : snapshot) : bool :=
+  if pending (sfut (cprev c)) then
+    match sfut N with
+    | FTimeout => match e with Some EConnectTimer => has_ct && sct (cprev c) | _ => false end
+    | FErr x => (length (sstarted N) =? n)%nat
+                && match k_infl_next c e N with [] => true | _ => false end
+                && match x with Some b => mem b (k_dn c e N) && negb (mem b (k_oks c e N)) | None => false end
+    | _ => true
+    end
+  else true.
+Definition ck_timer (c : cst) (e : option event) (N : snapshot) : bool :=
+  match e with
+  | Some EConnectTimer =>
+      if sct (cprev c) && pending (sfut (cprev c)) then fstate_eqb (sfut N) FTimeout else true
+  | _ => true
+  end.
+(* no leak, no premature close *)
+Definition ck_leak (c : cst) (e : option event) (N : snapshot) : bool :=
+  match sfut N with
+  | FPending => forallb (Nat.eqb 0) (scloses N)
+  | f =>
+      forallb (fun a =>
+                 let cl := nth a (scloses N) O in
+                 match f with
+                 | FOk w => if Nat.eqb a w then Nat.eqb cl 0
+                            else if mem a (k_infl_next c e N) || mem a (k_oks c e N) then (1 <=? cl)%nat else true
+                 | _ => if mem a (k_infl_next c e N) || mem a (k_oks c e N) then (1 <=? cl)%nat else true
+                 end) (sstarted N)
+      && match f with FOk w => mem w (k_oks c e N) | _ => true end
+  end.
+(* at most one attempt in flight per address family *)
+Definition ck_family (c : cst) (e : option event) (N : snapshot) : bool :=
+  nodupb (map famz (k_infl_next c e N)).
+(* liveness: nothing in flight and the fallback timer not armed => resolved *)
+Definition ck_live (c : cst) (e : option event) (N : snapshot) : bool :=
+  match k_infl_next c e N with [] => if spt N then true else negb (pending (sfut N)) | _ => true end.
+(* self.remaining = attempts not yet completed *)
+Definition ck_rem (c : cst) (e : option event) (N : snapshot) : bool :=
+  (srem N =? Z.of_nat n - Z.of_nat (length (k_dn c e N))).
+
 Definition chk_step (c : cst) (e : option event) (N : snapshot) : option cst :=
-  let P := cprev c in
-  let k := length (sstarted P) in
-  let newly := skipn k (sstarted N) in
-  let infl_prev := inflight (sstarted P) (cdone c) in
-  let eff := match e with Some (EDone a _) => mem a infl_prev | _ => false end in
-  let dn := cdone c ++ (match e with Some (EDone a _) => if eff then [a] else [] | _ => [] end)
-                    ++ filter is_sync newly in
-  let oks := cok c ++ (match e with Some (EDone a true) => if eff then [a] else [] | _ => [] end)
-                   ++ filter is_sync_ok newly in
-  let infl_next := inflight (sstarted N) dn in
-  let expected :=
-      match e with
-      | Some (EDone a true) => if eff then Some a else None
-      | _ => None
-      end in
-  let expected := match expected with Some a => Some a | None => hd_error (filter is_sync_ok newly) end in
-  let ok :=
-    (* the log of attempts only grows; every attempt is a distinct, existing address *)
-    list_eqb Nat.eqb (firstn k (sstarted N)) (sstarted P)
-    && nodupb (sstarted N) && forallb (fun a => a <? n)%nat (sstarted N)
-    && (length (scloses N) =? n)%nat
-    (* resolved at most once, never changes, and nothing starts afterwards *)
-    && (if pending (sfut P) then true
-        else fstate_eqb (sfut N) (sfut P) && match newly with [] => true | _ => false end)
-    (* who wins: exactly the first success that arrives while pending *)
-    && (if pending (sfut P) then
-          match expected with
-          | Some w => fstate_eqb (sfut N) (FOk w)
-          | None => match sfut N with FOk _ => false | _ => true end
-          end
-        else true)
-    (* errors: timeout only from the connect timer; failure only when every address
-       has been tried and has completed *)
-    && (if pending (sfut P) then
-          match sfut N with
-          | FTimeout => match e with Some EConnectTimer => has_ct && sct P | _ => false end
-          | FErr x => (length (sstarted N) =? n)%nat
-                      && match infl_next with [] => true | _ => false end
-                      && match x with Some b => mem b dn && negb (mem b oks) | None => false end
-          | _ => true
-          end
-        else true)
-    && (match e with
-        | Some EConnectTimer =>
-            if sct P && pending (sfut P) then fstate_eqb (sfut N) FTimeout else true
-        | _ => true
-        end)
-    (* no leak, no premature close *)
-    && (match sfut N with
-        | FPending => forallb (Nat.eqb 0) (scloses N)
-        | f =>
-            forallb (fun a =>
-                       let c := nth a (scloses N) O in
-                       match f with
-                       | FOk w => if Nat.eqb a w then Nat.eqb c 0
-                                  else if mem a infl_next || mem a oks then (1 <=? c)%nat else true
-                       | _ => if mem a infl_next || mem a oks then (1 <=? c)%nat else true
-                       end) (sstarted N)
-            && match f with FOk w => mem w oks | _ => true end
-        end)
-    (* at most one attempt in flight per address family *)
-    && nodupb (map famz infl_next)
-    (* liveness: nothing in flight and the fallback timer not armed => resolved *)
-    && (match infl_next with [] => if spt N then true else negb (pending (sfut N)) | _ => true end)
-    (* self.remaining = attempts not yet completed *)
-    && (srem N =? Z.of_nat n - Z.of_nat (length dn))
-  in if ok then Some (mkc N dn oks) else None.
+  if ck_log c N && ck_once c N && ck_win c e N && ck_err c e N && ck_timer c e N
+     && ck_leak c e N && ck_family c e N && ck_live c e N && ck_rem c e N
+  then Some (mkc N (k_dn c e N) (k_oks c e N)) else None.
 
 Fixpoint chk_events (c : cst) (es : list event) (os : list obs) : bool :=
   match es, os with
